@@ -171,6 +171,7 @@ def run_task(t: Task):
             return r
         if ob.kind == "z3":
             timeout = ob.for_tier(ob.timeout, t.tier) or 300
+            env["VF_BUDGET_S"] = str(timeout)  # the obligation stops starting new queries near its budget and reports what it decided
             rc, out, err, wall, to = run_proc([PY, "-m", "vf.z3run", t.src, ob.fn], env, timeout + 120)
             r["wall_s"] = round(wall, 2)
             data = None
@@ -188,8 +189,8 @@ def run_task(t: Task):
                 r["detail"] = "; ".join(map(str, data["errors"]))[:1500]
             elif data.get("violations"):
                 r["verdict"] = "cex"
-            elif data.get("unknown", 0) and not data.get("unsat", 0):
-                r["verdict"] = "inconclusive"
+            elif data.get("truncated") or (data.get("unknown", 0) and not data.get("unsat", 0)):
+                r["verdict"] = "inconclusive"  # incl. a family cut short by the time budget: the decided part is in the counts
             else:
                 r["verdict"] = "confirmed" if not data.get("unknown", 0) else "confirmed_partial"
             return r
